@@ -190,7 +190,7 @@ def run_case(case):
                     elif isinstance(e, flags.IllegalFlagValueError):
                         bump("a.rejected_flag_value")
                     else:
-                        res["violations"].append({"what": f"config.load of a written config raised {type(e).__name__}: {msg[:200]}", "how": how, "toml": dest.read_text()[:800], "mechanism": f16 if "escape sequence" in msg else None})
+                        res["violations"].append({"what": f"config.load of a written config raised {type(e).__name__}: {msg[:200]}", "how": how, "toml": dest.read_text()[:800], "mechanism": f16 if type(e).__name__ == "TomlDecodeError" else None})
                     continue
             finally:
                 for f, v in saved.items():
